@@ -121,6 +121,7 @@ func (d *Device) handle(connID string, r *gnmi.SetRequest) (*DevReq, error) {
 		c := d.failCodes[0]
 		d.failCodes = d.failCodes[1:]
 		req.Outcome = "fault(" + c.String() + ")"
+		d.w.InjectedFault()
 		return req, status.Error(c, "injected device fault")
 	}
 	if election < d.MaxElection {
